@@ -379,8 +379,17 @@ class Struct:
             buf[offset:offset + self.size] = bytes(d)
 
     def unpack_from(self, buf, offset=0):
-        offset = _c(offset)
         n = len(buf)
+        if _is_sym(offset):
+            # decide the range check symbolically (one path per failing side), enumerate only in-range offsets
+            if offset < 0:
+                offset = offset + n
+                if offset < 0:
+                    raise error(f"offset {n} out of range")
+            if offset > n - self.size:
+                raise error(f"unpack_from requires a buffer of at least {self.size} bytes for unpacking "
+                            f"{self.size} bytes at a symbolic offset (actual buffer size is {n})")
+            offset = _c(offset)
         if offset < 0:
             offset += n
         if offset < 0 or n - offset < self.size:
